@@ -19,11 +19,11 @@ const fuel = 3000000
 
 // typed universe with an optional reference order
 type uni[T any] struct {
-	name string
-	vals []T
-	tag  func(v T) string      // input-class tag for signatures ("" = ordinary)
-	ref  func(a, b T) age.Rank // nil = laws only
-	eqRef func(a, b T) bool   // reference equality only (where the statement fixes no order)
+	name  string
+	vals  []T
+	tag   func(v T) string      // input-class tag for signatures ("" = ordinary)
+	ref   func(a, b T) age.Rank // nil = laws only
+	eqRef func(a, b T) bool     // reference equality only (where the statement fixes no order)
 }
 
 type pairCase struct {
